@@ -203,7 +203,7 @@ func (b *fbuilder) build(e ast.Expr, fr *core.Frame) *formula {
 								return mk(&formula{kind: fAtom, name: key + "==0", state: key, zero: true})
 							}
 							if isNilExpr(other, fr) {
-								return mk(&formula{kind: fAtom, name: key + "==nil"})
+								return mk(&formula{kind: fAtom, name: key + "==nil", state: key})
 							}
 						}
 					}
@@ -213,7 +213,7 @@ func (b *fbuilder) build(e ast.Expr, fr *core.Frame) *formula {
 						return mk(&formula{kind: fAtom, name: key + "==0", state: key, zero: true})
 					}
 					if isNilExpr(other, fr) {
-						return mk(&formula{kind: fAtom, name: key + "==nil"})
+						return mk(&formula{kind: fAtom, name: key + "==nil", state: key})
 					}
 				}
 				if lv := identVar(v, fr); lv != nil && (isZeroLit(other, fr) || isNilExpr(other, fr)) {
@@ -269,6 +269,32 @@ func (b *fbuilder) build(e ast.Expr, fr *core.Frame) *formula {
 		}
 	}
 	return opaque()
+}
+
+
+// defFromAssign: the definition a local gets from an assignment event — a pure expression, or, for a
+// value returned by an inlined helper, what the helper returned (a pure expression, or the definition
+// of the variable it returned).
+func defFromAssign(ev *core.Event, defs map[*types.Var]localDef) (localDef, bool) {
+	if ev.Tok != token.ASSIGN && ev.Tok != token.DEFINE {
+		return localDef{}, false
+	}
+	if ev.RetEv != nil {
+		re, rv := retResult(ev.RetEv, ev.RhsIdx)
+		if rv != nil {
+			if d, ok := defs[rv]; ok && d.expr != nil {
+				return d, true
+			}
+		}
+		if re != nil && rv == nil && isPureExpr(re) {
+			return localDef{expr: re, fr: ev.RetEv.Frame}, true
+		}
+		return localDef{}, false
+	}
+	if ev.Rhs != nil && ev.RhsIdx < 0 && isPureExpr(ev.Rhs) {
+		return localDef{expr: ev.Rhs, fr: ev.Frame}, true
+	}
+	return localDef{}, false
 }
 
 func isPureExpr(e ast.Expr) bool {
@@ -387,8 +413,8 @@ func (s *r2State) collectPredicates(entries []core.Entry) map[string][]*r2Pred {
 					if v == nil || v.IsField() {
 						break
 					}
-					if ev.Rhs != nil && ev.RhsIdx < 0 && isPureExpr(ev.Rhs) && (ev.Tok == token.ASSIGN || ev.Tok == token.DEFINE) {
-						defs[v] = localDef{expr: ev.Rhs, fr: ev.Frame}
+					if d, ok := defFromAssign(ev, defs); ok {
+						defs[v] = d
 					} else if ev.Rhs == nil && ev.Define {
 						delete(defs, v) // zero value: the walker folds constants itself
 					} else {
@@ -510,8 +536,8 @@ func (s *r2State) actorPath(e core.Entry, p *core.Path, preds map[string][]*r2Pr
 		case core.KAssign:
 			if !ev.FieldInit {
 				if v := identVar(ev.Lhs, ev.Frame); v != nil && !v.IsField() {
-					if ev.Rhs != nil && ev.RhsIdx < 0 && isPureExpr(ev.Rhs) && (ev.Tok == token.ASSIGN || ev.Tok == token.DEFINE) {
-						defs[v] = localDef{expr: ev.Rhs, fr: ev.Frame}
+					if d, ok := defFromAssign(ev, defs); ok {
+						defs[v] = d
 					} else if ev.Rhs == nil && ev.Define {
 						delete(defs, v)
 					} else {
@@ -546,7 +572,22 @@ func (s *r2State) section(e core.Entry, p *core.Path, acq, rel int, lock *types.
 	broadcast := false
 	subscribes := false
 	cellWrites := map[string]token.Pos{}
-	for _, ev := range p.Events[acq : rel+1] {
+	freshLocals := map[*types.Var]bool{} // locals assigned a freshly made (non-nil) object on this path
+	for _, ev := range p.Events[:acq] {
+		if ev.Kind == core.KAssign && !ev.FieldInit {
+			if lv := identVar(ev.Lhs, ev.Frame); lv != nil && !lv.IsField() {
+				freshLocals[lv] = ev.Rhs != nil && ev.RhsIdx < 0 && isFreshExpr(ev.Rhs, ev.Frame.Info())
+			}
+		}
+	}
+	var gp *gpath // prepared lazily: only sections that write pointer-like state need it
+	for off, ev := range p.Events[acq : rel+1] {
+		evIdx := acq + off
+		if ev.Kind == core.KAssign && !ev.FieldInit {
+			if lv := identVar(ev.Lhs, ev.Frame); lv != nil && !lv.IsField() {
+				freshLocals[lv] = ev.Rhs != nil && ev.RhsIdx < 0 && isFreshExpr(ev.Rhs, ev.Frame.Info())
+			}
+		}
 		switch ev.Kind {
 		case core.KBroadcast:
 			if ev.Lock == lock {
@@ -589,6 +630,47 @@ func (s *r2State) section(e core.Entry, p *core.Path, acq, rel int, lock *types.
 				}
 			}
 			if isBasic(t, types.IsBoolean) || isBasic(t, types.IsInteger) {
+				written[key] = true
+				steps = append(steps, r2Step{state: key, op: op, pos: ev.Pos})
+			} else if isNilable(t) && ev.Kind == core.KAssign {
+				// pointer-like state: the atom is "key == nil"
+				if gp == nil {
+					gp = prepare(c, p)
+				}
+				if ev.Rhs != nil && ev.RhsIdx < 0 {
+					gb := gp.builderAt(evIdx)
+					lt, ok1 := gb.term(ev.Lhs, ev.Frame)
+					rt, ok2 := gb.term(ev.Rhs, ev.Frame)
+					lits := gp.litsBefore(evIdx, true)
+					// (a) a write of the value the variable was just found to hold changes nothing
+					if ok1 && ok2 {
+						if same, _ := implies(lits, eq(lt, rt)); same && len(lits) > 0 {
+							continue
+						}
+					}
+					// (b) a context found dead (X.Err() != nil) and set to nil: every waiter normalises a
+					// dead context to nil in its own section before testing it, so "dead" and "nil" are
+					// the same state to them; what changed is the context's liveness, an external event
+					// nobody can broadcast
+					if ok1 && isNilExpr(ev.Rhs, ev.Frame) && isContextType(t) {
+						if dead, _ := implies(lits, fnot(eq("nil", lt+".Err()"))); dead {
+							continue
+						}
+					}
+				}
+				op := "unknown"
+				if ev.Rhs != nil && ev.RhsIdx < 0 && (ev.Tok == token.ASSIGN || ev.Tok == token.DEFINE) {
+					switch {
+					case isNilExpr(ev.Rhs, ev.Frame):
+						op = "nil"
+					case isFreshExpr(ev.Rhs, ev.Frame.Info()) || ev.Val.Kind == core.VFuncLit || ev.Val.Kind == core.VNonNil:
+						op = "nonnil"
+					default:
+						if lv := identVar(ev.Rhs, ev.Frame); lv != nil && freshLocals[lv] {
+							op = "nonnil"
+						}
+					}
+				}
 				written[key] = true
 				steps = append(steps, r2Step{state: key, op: op, pos: ev.Pos})
 			}
@@ -694,7 +776,32 @@ func (s *r2State) section(e core.Entry, p *core.Path, acq, rel int, lock *types.
 			var sim func(k int, st map[string]int) bool // returns true if a grantable end state is reachable
 			sim = func(k int, st map[string]int) bool {
 				if k == len(steps) {
-					return blocked(st) != 1
+					b := blocked(st)
+					if b != 2 {
+						return b != 1
+					}
+					// atoms the section left unknown: grantable only if some completion is (a write of an
+					// unknown value to X cannot unblock a waiter that is blocked for X == nil and for X != nil)
+					var unk []string
+					for n, v := range st {
+						if v == 2 {
+							unk = append(unk, n)
+						}
+					}
+					sort.Strings(unk)
+					if len(unk) > 10 {
+						return true
+					}
+					for m := 0; m < 1<<len(unk); m++ {
+						cs := copyState(st)
+						for i, n := range unk {
+							cs[n] = (m >> i) & 1
+						}
+						if blocked(cs) != 1 {
+							return true
+						}
+					}
+					return false
 				}
 				sp := steps[k]
 				if sp.lit != nil {
@@ -727,8 +834,16 @@ func (s *r2State) section(e core.Entry, p *core.Path, acq, rel int, lock *types.
 					return sim(k+1, st)
 				}
 				ns := copyState(st)
-				boolName, zeroName := sp.state, sp.state+"==0"
+				boolName, zeroName, nilName := sp.state, sp.state+"==0", sp.state+"==nil"
 				switch sp.op {
+				case "nil":
+					if _, ok := ns[nilName]; ok {
+						ns[nilName] = 1
+					}
+				case "nonnil":
+					if _, ok := ns[nilName]; ok {
+						ns[nilName] = 0
+					}
 				case "true":
 					ns[boolName] = 1
 				case "false":
@@ -747,6 +862,9 @@ func (s *r2State) section(e core.Entry, p *core.Path, acq, rel int, lock *types.
 					}
 					if _, ok := ns[zeroName]; ok {
 						ns[zeroName] = 2
+					}
+					if _, ok := ns[nilName]; ok {
+						ns[nilName] = 2
 					}
 				}
 				return sim(k+1, ns)
@@ -791,4 +909,13 @@ func shortState(k string) string {
 		return k
 	}
 	return k[strings.LastIndex(k, ".")+1:]
+}
+
+// isNilable: pointer, interface, func, map, chan or slice typed.
+func isNilable(t types.Type) bool {
+	switch t.Underlying().(type) {
+	case *types.Pointer, *types.Interface, *types.Signature, *types.Map, *types.Chan, *types.Slice:
+		return true
+	}
+	return false
 }
